@@ -9,6 +9,15 @@ OUT = os.path.join(ROOT, "out")
 EVID = os.path.join(ROOT, "evidence")
 HARNESS = os.path.join(ROOT, "harness")
 PV = os.path.join(BUILD, "harness", "debug", "pv")
+# PV_REPO=<dir>: developer aid for trying the checks against a scratch copy of the repository (seeded
+# changes) without touching /repo; registered commands never set it.  Everything such a run writes
+# goes to separate directories.
+ALT_REPO = os.environ.get("PV_REPO")
+if ALT_REPO:
+    OUT = os.path.join(ROOT, "out-alt")
+    EVID = os.path.join(OUT, "evidence")
+    BUILD = os.path.join(ROOT, ".build", "alt")
+    PV = os.path.join(BUILD, "harness", "debug", "pv")
 JAR_CP = "/opt/veriftools/tla/tla2tools.jar:/opt/veriftools/tla/CommunityModules-deps.jar"
 NCPU = 16
 
@@ -44,7 +53,17 @@ def build_harness():
     lock = os.path.join(HARNESS, "Cargo.lock")
     if not os.path.exists(lock):
         shutil.copy("/repo/Cargo.lock", lock)
-    r = sh(["cargo", "build", "--offline", "--quiet"], cwd=HARNESS, timeout=1800,
+    hdir = HARNESS
+    if ALT_REPO:
+        hdir = os.path.join(BUILD, "harness-src")
+        os.makedirs(hdir, exist_ok=True)
+        sh(["rsync", "-a", "--delete", "--exclude", "target", HARNESS + "/", hdir + "/"])
+        for fn in ("Cargo.toml", ".cargo/config.toml"):
+            fp = os.path.join(hdir, fn)
+            txt = open(fp).read().replace("/repo/", ALT_REPO.rstrip("/") + "/")
+            txt = txt.replace('target-dir = "../.build/harness"', f'target-dir = "{BUILD}/harness"')
+            open(fp, "w").write(txt)
+    r = sh(["cargo", "build", "--offline", "--quiet"], cwd=hdir, timeout=1800,
            env={"CARGO_NET_OFFLINE": "true"})
     if r.returncode != 0:
         raise ToolError("harness build failed:\n" + r.stdout[-4000:])
@@ -52,9 +71,12 @@ def build_harness():
     return PV
 
 
-def pv(args, timeout=3600, stdin=None):
+def pv(args, timeout=3600, stdin=None, env=None):
+    e = dict(os.environ)
+    if env:
+        e.update({k: str(v) for k, v in env.items()})
     r = subprocess.run([PV] + args, cwd=ROOT, timeout=timeout, stdout=subprocess.PIPE,
-                       stderr=subprocess.PIPE, text=True, input=stdin)
+                       stderr=subprocess.PIPE, text=True, input=stdin, env=e)
     if r.returncode != 0:
         raise ToolError(f"pv {' '.join(args[:3])} failed ({r.returncode}): {r.stderr[-3000:]}")
     return r.stdout
@@ -164,7 +186,7 @@ _VEC = re.compile(r'^<<"VEC", "(.*)">>$')
 
 
 def tlc_gen(module, constants, invariants, nshards, vec_path, timeout=3600, spec="ESpec",
-            run_prefix=None, java_opts=None):
+            run_prefix=None, java_opts=None, simulate=None, depth=20, no_shard_consts=False):
     """GEN leg: run `nshards` TLC processes (one worker each, constants Shard/NShards), collect the
     VEC lines into vec_path.  Returns dict(generated, distinct, vectors, wall)."""
     run_prefix = run_prefix or module
@@ -172,13 +194,23 @@ def tlc_gen(module, constants, invariants, nshards, vec_path, timeout=3600, spec
 
     def one(sh_i):
         c = dict(constants)
-        c["Shard"] = sh_i
-        c["NShards"] = nshards
+        if not no_shard_consts:
+            c["Shard"] = 0 if simulate else sh_i
+            c["NShards"] = 1 if simulate else nshards
         cfgp = os.path.join(BUILD, "tlc", f"{run_prefix}_{sh_i}.cfg")
         write_cfg(cfgp, spec, c, invariants)
-        out, wall, rc = run_tlc(module, cfgp, f"{run_prefix}_{sh_i}", workers=1, timeout=timeout,
-                                java_opts=java_opts)
+        if simulate:
+            out, wall, rc = run_tlc(module, cfgp, f"{run_prefix}_{sh_i}", workers=1, timeout=timeout,
+                                    java_opts=java_opts, simulate=f"num={simulate}",
+                                    extra=["-depth", str(depth), "-seed", str(seed() * 1000 + sh_i)])
+        else:
+            out, wall, rc = run_tlc(module, cfgp, f"{run_prefix}_{sh_i}", workers=1, timeout=timeout,
+                                    java_opts=java_opts)
         st = parse_tlc(out)
+        if simulate:
+            m = re.search(r"(\d+) states checked", out)
+            st["ok"] = st["violated"] is None and ("Progress:" in out or m is not None) and "Error:" not in out
+            st["generated"] = st["distinct"] = int(m.group(1)) if m else 0
         vecs = []
         for line in out.splitlines():
             m = _VEC.match(line)
